@@ -245,6 +245,91 @@ Section Engine.
 End Engine.
 
 (* ------------------------------------------------------------------------------------------ *)
+(* The values recorded for tracked variables (table env_var, column value)                     *)
+(* ------------------------------------------------------------------------------------------ *)
+(* [resync] compares the new environment with [ev y], the environment of the previous build.  The
+   code keeps no such copy: what startup.rescan_env_vars compares os.getenv(name) with is ONE
+   RECORDED VALUE PER ROW (step, variable) of table env_var -- written when the step declares or
+   amends the variable, and rewritten by the rescan itself for every row it found changed (the
+   list [changed] of (new value, node, name) triples, written back with one executemany).  That
+   write-back is what makes a later change visible, in particular a change back to an earlier
+   value (A -> B -> A, D30).  [rsys] adds these rows to the state; [resync_with sel] is the rescan
+   with the write-back restricted to the sub-list [sel changed]:
+     resync_r      = resync_with (fun l => l)     what the code does: every changed row
+     resync_r_one  = resync_with last_per_step    one row per step (a dict keyed by the step in
+                                                  place of the list of triples): refuted in
+                                                  props/C01.v, C01_env_writeback_one_per_step_refuted
+   proofs/EngineRecProofs.v: after [resync_r] EVERY row of EVERY step holds the value of the
+   present environment ([resync_r_records_all]); hence on states reached from [empty_rsys] the
+   rescan with recorded values is the rescan [resync] ([resync_r_base]) and the restart-flavour
+   equivalence carries over. *)
+Record rsys := mkR {
+  rbase : sys;
+  rrec : N -> N -> option N }.       (* step id -> variable -> env_var.value (None = unset) *)
+
+(* the rows of env_var of the attached steps, in scan order *)
+Definition env_rows (proj : project) : list (N * N) :=
+  flat_map (fun s => map (fun n => (sid s, n)) (envn s)) proj.
+Definition row_changed (e : N -> option N) (r : N -> N -> option N) (x : N * N) : bool :=
+  negb (oN_eqb (e (snd x)) (r (fst x) (snd x))).
+(* the triples (node, name, new value) of the rows whose recorded value differs *)
+Definition changed_rows (e : N -> option N) (r : N -> N -> option N) (proj : project)
+  : list (N * N * option N) :=
+  map (fun x => (fst x, snd x, e (snd x))) (filter (row_changed e r) (env_rows proj)).
+Definition upd2 (r : N -> N -> option N) (id n : N) (v : option N) : N -> N -> option N :=
+  fun i m => if (i =? id) && (m =? n) then v else r i m.
+(* UPDATE env_var SET value = ? WHERE node = ? AND name = ?, for each triple *)
+Definition write_back (r : N -> N -> option N) (l : list (N * N * option N)) : N -> N -> option N :=
+  fold_left (fun r x => upd2 r (fst (fst x)) (snd (fst x)) (snd x)) l r.
+
+(* [mark] with a variable-changed test per (step, variable) row *)
+Fixpoint mark_r (todo : project) (dirty : N -> bool) (denv : N -> N -> bool) (st : N -> sstate)
+  : N -> sstate :=
+  match todo with
+  | [] => st
+  | s :: rest =>
+    if existsb dirty (inp s) || existsb (denv (sid s)) (envn s) || negb (is_succ (st (sid s)))
+    then mark_r rest (fun p => dirty p || memN p (out s)) denv (upd st (sid s) Pending)
+    else mark_r rest dirty denv st
+  end.
+
+Definition resync_with (sel : list (N * N * option N) -> list (N * N * option N))
+           (proj : project) (y : rsys) (w : world) : rsys :=
+  let b := rbase y in
+  let f' := fun x => if is_output proj x then fs b x else fst w x in
+  mkR (mkSys f' (snd w) (tr b)
+             (mark_r proj (fun x => negb (oN_eqb (f' x) (fs b x)))
+                     (fun id n => row_changed (snd w) (rrec y) (id, n)) (stt b)))
+      (write_back (rrec y) (sel (changed_rows (snd w) (rrec y) proj))).
+Definition resync_r : project -> rsys -> world -> rsys := resync_with (fun l => l).
+
+(* keep, for every step, only its LAST triple (what a dict keyed by the step retains) *)
+Fixpoint last_per_step (l : list (N * N * option N)) : list (N * N * option N) :=
+  match l with
+  | [] => []
+  | x :: l' => if existsb (fun z => fst (fst z) =? fst (fst x)) l' then last_per_step l'
+               else x :: last_per_step l'
+  end.
+Definition resync_r_one : project -> rsys -> world -> rsys := resync_with last_per_step.
+
+(* no .stepup directory: no rows; a step that declares a variable records the value of that
+   moment, which the first rescan of the model writes as a change from "unset" *)
+Definition empty_rsys : rsys := mkR empty_sys (fun _ _ => None).
+
+(* every row holds the value of the present environment *)
+Definition RecOK (proj : project) (y : rsys) : Prop :=
+  forall s n, In s proj -> In n (envn s) -> rrec y (sid s) n = ev (rbase y) n.
+
+Section Recorded.
+  Variable run : N -> list (option N) -> list (option N) -> N -> N.
+  Definition build_world_with (rs : project -> rsys -> world -> rsys)
+             (proj : project) (w : world) (y : rsys) : rsys :=
+    let y1 := rs proj y w in mkR (build run proj (rbase y1)) (rrec y1).
+  Definition build_world_r := build_world_with resync_r.
+  Definition build_world_r_one := build_world_with resync_r_one.
+End Recorded.
+
+(* ------------------------------------------------------------------------------------------ *)
 (* Correspondence checker (harness/c01_engine.py): a concrete deterministic program and the    *)
 (* comparison of per-build logs and step states with what the real system did                  *)
 (* ------------------------------------------------------------------------------------------ *)
@@ -299,6 +384,42 @@ Fixpoint trace_hist (proj : project) (y : sys) (phases : list phase_spec)
     (build_log mix_run proj proj y1, map (fun x => (fst x, is_succ (stt y2 (fst x)))) est,
      map (fun x => (fst x, negb (oN_eqb (fs y2 (fst x)) (fs y (fst x))))) echg)
       :: trace_hist proj y2 rest
+  end.
+
+(* the same with the recorded values of the tracked variables: the rescan is [resync_r] (the
+   harness uses this one: it is the mechanism of the code), and after every build the rows
+   (step, variable, value) read from table env_var of the real database are compared with [rrec]:
+   every observed row has the model's value and every row of the model was observed *)
+Definition phase_spec_r := (phase_spec * list (N * N * option N))%type.
+Definition rows_eqb (proj : project) (r : N -> N -> option N) (obs : list (N * N * option N)) : bool :=
+  forallb (fun x => oN_eqb (r (fst (fst x)) (snd (fst x))) (snd x)) obs &&
+  forallb (fun k => existsb (fun x => (fst (fst x) =? fst k) && (snd (fst x) =? snd k)) obs)
+          (env_rows proj).
+
+Fixpoint check_hist_r (proj : project) (y : rsys) (phases : list phase_spec_r) : bool :=
+  match phases with
+  | [] => true
+  | ((src, env, elog, est, echg), erec) :: rest =>
+    let y1 := resync_r proj y (src_of src, src_of env) in
+    let y2 := build mix_run proj (rbase y1) in
+    log_eqb (build_log mix_run proj proj (rbase y1)) elog &&
+    forallb (fun x => Bool.eqb (is_succ (stt y2 (fst x))) (snd x)) est &&
+    forallb (fun x => Bool.eqb (negb (oN_eqb (fs y2 (fst x)) (fs (rbase y) (fst x)))) (snd x)) echg &&
+    rows_eqb proj (rrec y1) erec &&
+    check_hist_r proj (mkR y2 (rrec y1)) rest
+  end.
+
+Fixpoint trace_hist_r (proj : project) (y : rsys) (phases : list phase_spec_r)
+  : list (list (N * bool) * list (N * bool) * list (N * bool) * list (N * N * option N)) :=
+  match phases with
+  | [] => []
+  | ((src, env, _, est, echg), _) :: rest =>
+    let y1 := resync_r proj y (src_of src, src_of env) in
+    let y2 := build mix_run proj (rbase y1) in
+    (build_log mix_run proj proj (rbase y1), map (fun x => (fst x, is_succ (stt y2 (fst x)))) est,
+     map (fun x => (fst x, negb (oN_eqb (fs y2 (fst x)) (fs (rbase y) (fst x))))) echg,
+     map (fun k => (fst k, snd k, rrec y1 (fst k) (snd k))) (env_rows proj))
+      :: trace_hist_r proj (mkR y2 (rrec y1)) rest
   end.
 
 (* ------------------------------------------------------------------------------------------ *)
